@@ -35,7 +35,7 @@ RULE = (
     "→, ∧, vs, §, #, @, <x>, {y}, space, 2 spaces, newline, tab, ```, ===D===, ===END===, ---, //c, \\}; a seeded sample of sequences of length 5-6 (quick 60k, thorough 2M). (ii) Hypothesis: Unicode text <=300 (no surrogates), punctuation soups, deep brackets (50-140), long number "
     "lexemes. (iii) 5 span mutations x ~40 packaged spec/schema/primer/fixture files x seeds. (iv) atheris (thorough, 8 forks x 6 min; "
     "quick replays the saved corpus). (v) 18 families x {n,4n,16n} CPU time. (vi) 4 tools x hostile content x flags, and histories of 2-4 octave_write calls on one path with structurally different documents (numbered / named / decimal section markers). Oracle: only "
-    "LexerError/ParserError escape the reader; bracket depth >100 => ParserError; tools return JSON-serialisable envelopes with "
+    "LexerError/ParserError escape the reader, and it answers (30 s alarm for inputs < 20 kB, a hang is confirmed with 90 s in a fresh process); bracket depth >100 => ParserError; tools return JSON-serialisable envelopes with "
     "status or validation_status; t(16n)/t(n) <= 64 when t(16n) >= 50 ms, breach confirmed 3x in fresh processes. Non-trivial = text "
     "accepted by the tokenizer with >=1 structural token, or rejected with a positioned error at line > 1; distinct by text."
 )
@@ -63,8 +63,21 @@ def bucket(e: BaseException) -> str:
     return f"{type(e).__name__}@{frame}"
 
 
+class _Hang(BaseException):
+    pass
+
+
+def _alarm(signum, frame):
+    raise _Hang()
+
+
+HANG_SECONDS = 30  # for inputs below 20 kB: three orders of magnitude above anything linear
+
+
 def read_all(text: str):
     """Run the four reader entry points. Returns (list of (entry, bucket, message), accepted: bool, positioned_late: bool)."""
+    import signal
+
     from octave_mcp.core.lexer import tokenize
     from octave_mcp.core.parser import parse, parse_meta_only, parse_with_warnings
 
@@ -72,12 +85,25 @@ def read_all(text: str):
     bad = []
     accepted = False
     late = False
+    guard = len(text) < 20000 and hasattr(signal, "SIGALRM")
+    if guard:
+        try:
+            signal.signal(signal.SIGALRM, _alarm)
+        except ValueError:  # not in the main thread
+            guard = False
     for name, fn in (("tokenize", lambda t: tokenize(t)), ("tokenize_lenient", lambda t: tokenize(t, lenient=True)), ("parse", parse),
                      ("parse_with_warnings", parse_with_warnings), ("parse_meta_only", parse_meta_only)):
         try:
+            if guard:
+                signal.alarm(HANG_SECONDS)
             fn(text)
             if name == "tokenize":
                 accepted = True
+        except _Hang:
+            # confirm in a fresh process with a longer limit before calling it a hang (a loaded machine is not a defect)
+            if confirm_hang(text):
+                bad.append((name, "Hang@reader", f"no answer within {HANG_SECONDS}s here and within 90s in a fresh process for an input of {len(text)} characters"))
+            break
         except own as e:
             if getattr(e, "line", 0) and e.line > 1:
                 late = True
@@ -85,7 +111,25 @@ def read_all(text: str):
             bad.append((name, "RecursionError@" + bucket(e).split("@", 1)[1], "recursion limit"))
         except BaseException as e:  # noqa: BLE001
             bad.append((name, bucket(e), repr(e)[:200]))
+        finally:
+            if guard:
+                signal.alarm(0)
     return bad, accepted, late
+
+
+def confirm_hang(text: str) -> bool:
+    from vf.common import REPO_SRC
+
+    code = ("import sys; sys.path.insert(0, sys.argv[1]); from octave_mcp.core.parser import parse_with_warnings\n"
+            "t = sys.stdin.read()\n"
+            "try:\n    parse_with_warnings(t)\nexcept Exception:\n    pass\n")
+    try:
+        subprocess.run([sys.executable, "-c", code, REPO_SRC], input=text, text=True, timeout=90, capture_output=True)
+        return False
+    except subprocess.TimeoutExpired:
+        return True
+    except Exception:
+        return False
 
 
 def classify(entry: str, bk: str, text: str) -> str:
@@ -164,10 +208,12 @@ def text_strategy():
     deep = hs.builds(lambda d, inner, close: "===D===\nK::" + "[" * d + inner + ("]" * d if close else "") + "\n===END===\n", hs.integers(50, 140), hs.sampled_from(["", "a", "a,b", '"x"']), hs.booleans())
     blocks = hs.builds(lambda d: "===D===\n" + "".join(" " * i + f"B{i}:\n" for i in range(d)) + " " * d + "X::1\n===END===\n", hs.integers(2, 100))
     nums = hs.builds(lambda n, d: "===D===\nK::" + d * n + "\n===END===\n", hs.integers(1, 400), hs.sampled_from(["9", "0", "1.", "-1", "1e", "1.2.3."]))
+    unterminated = hs.builds(lambda q, body, pre: "===D===\n" + pre + q + body + "\n===END===\n", hs.sampled_from(['"', '"""', "```\n", "K::[", "§"]),
+                             hs.text(alphabet="ab \\x.-_:/é", min_size=20, max_size=80), hs.sampled_from(["K::", "K::[a,", "", "META:\n  T::"]))
     holo = hs.sampled_from(['===D===\nK::["x"∧REGEX["a{3}"]]\n===END===\n', '===D===\nK::["x"∧REGEX["("]]\n===END===\n', '===D===\nK::["x"∧RANGE[5,1]]\n===END===\n',
                             '===D===\nK::["x"∧ENUM[]]\n===END===\n', '===D===\nK::["x"∧LANG[]]\n===END===\n', '===D===\nK::["x"∧TYPE[NOPE]→§]\n===END===\n',
                             '===D===\nK::[∧REQ]\n===END===\n', '===D===\nK::["x"∧∧REQ]\n===END===\n', '===D===\nK::["x"∧MAX_LENGTH[-1]]\n===END===\n'])
-    return hs.one_of(uni, soup, soup, deep, blocks, nums, holo)
+    return hs.one_of(uni, soup, soup, deep, blocks, nums, holo, unterminated)
 
 
 def shard_text(ctx: Ctx, sh: int, nshards: int, n: int) -> Stats:
@@ -465,6 +511,34 @@ def probes(st: Stats):
     return texts
 
 
+def tool_probes(st: Stats):
+    """Well-typed calls with contents chosen for the tools' own code paths (not the reader's)."""
+    cases = {
+        "gbnf_contract_type_not_string": ("eject", {"content": '===D===\nMETA:\n  TYPE::[a,b]\n  CONTRACT::["FIELD[X]::REQ"]\n===END===\n', "schema": "META", "format": "gbnf"}),
+        "gbnf_contract_type_number": ("compile", {"content": '===D===\nMETA:\n  TYPE::5\n  CONTRACT::["FIELD[X]::REQ"]\n===END===\n', "format": "gbnf"}),
+        "gbnf_contract_type_null": ("compile", {"content": '===D===\nMETA:\n  TYPE::null\n  CONTRACT::["FIELD[X]::REQ∧ENUM[A,B]"]\n===END===\n', "format": "json_schema"}),
+        "skill_frontmatter_bad_date": ("validate", {"content": "---\nname: x\ndescription: y\nallowed-tools: [a]\ndate: 2001-02-30\n---\n\n===S===\nMETA:\n  TYPE::SKILL\n  VERSION::\"1.0\"\n===END===\n", "schema": "SKILL"}),
+        "skill_frontmatter_not_yaml": ("validate", {"content": "---\n: : :\n\t- x\n{{{\n---\n\n===S===\nMETA:\n  TYPE::SKILL\n===END===\n", "schema": "SKILL"}),
+        "skill_frontmatter_anchor_bomb": ("validate", {"content": "---\na: &a [x,x]\nb: &b [*a,*a]\nc: [*b,*b]\nname: !!python/object/apply:os.system ['true']\n---\n\n===S===\nMETA:\n  TYPE::SKILL\n===END===\n", "schema": "SKILL"}),
+        "eject_json_nonfinite": ("eject", {"content": "===D===\nK::1e999\nL::[-1e400,2]\n===END===\n", "schema": "META", "format": "json"}),
+        "eject_yaml_nonfinite": ("eject", {"content": "===D===\nK::1e999\n===END===\n", "schema": "META", "format": "yaml"}),
+        "eject_template": ("eject", {"content": None, "schema": "META"}),
+        "validate_holo_meta": ("validate", {"content": '===D===\nMETA:\n  TYPE::["x"∧REQ]\n  VERSION::[1∧OPT→§SELF]\n===END===\n', "schema": "META", "fix": True}),
+        "write_mutations_nested": ("write", {"target_path": os.path.join(_SCRATCH[0] or "/var/tmp", "tp.oct.md"), "content": "===D===\nK::1\n===END===\n",
+                                             "mutations": {"A": {"b": {"c": [1, {"d": None}]}}, "B": [], "C": ""}}),
+    }
+    for name, (tool, args) in cases.items():
+        fn = {"eject": tools.eject, "compile": tools.compile_grammar, "validate": tools.validate, "write": tools.write}[tool]
+        st.case({"tool_probe": name}, nontrivial=True, labels=["tool_probe"], key=name)
+        try:
+            r = fn(**args)
+            json.dumps(r)
+            if not isinstance(r, dict) or not ("status" in r or "validation_status" in r):
+                st.fail(f"C20:unlisted:{tool}:envelope-without-status", {"kind": "tool_probe", "name": name}, f"{name}: {type(r).__name__}")
+        except BaseException as e:  # noqa: BLE001
+            st.fail(f"C20:unlisted:tool-probe:{name}:{bucket(e)}", {"kind": "tool_probe", "name": name}, f"octave_{tool} raised {bucket(e)}: {e!r} | args={ {k: (v if k != 'content' else (v or '')[:200]) for k, v in args.items()} }")
+
+
 def fuzz_corpus(st: Stats):
     for path in sorted(glob.glob(os.path.join(VERIF_HOME, "regress", "C20", "fuzz", "*"))):
         try:
@@ -538,6 +612,8 @@ def shard_all(ctx: Ctx, sh: int, nshards: int) -> Stats:
             fuzz_corpus(st)
         if sh == 1 % nshards:
             probes(st)
+        if sh == 2 % nshards:
+            tool_probes(st)
     return st
 
 
@@ -550,6 +626,12 @@ def check_case(case) -> list[Failure]:
         idx = fams.index(case["family"])
         st = shard_scaling(ctx, idx, len(fams), case.get("n", 250))
         return [f for fl in st.failures.values() for f in fl]
+    if k == "tool_probe":
+        st = Stats()
+        with scratch_dir() as scratch:
+            _SCRATCH[0] = scratch
+            tool_probes(st)
+        return [f for fl in st.failures.values() for f in fl if f.case == case]
     if k == "probe":
         st = Stats()
         probes(st)
